@@ -19,6 +19,26 @@ claimed = {
    note="Segmentation chosen by ReadFrom is read back from the buffer's own Peek view rather than prescribed; PeekWithBytes is exercised within the bound on which both readings of its API agree."),
 }
 
+SIM_NOTE = "Runs the real engine code of the working tree (instrumented at call boundaries only) on a simulated Linux kernel and a seeded cooperative scheduler inside a synctest bubble; trusts the kernel model (held to the real kernel by the conformance self-test), the harness's reference bookkeeping, and that preemption only matters at syscalls, atomics, channel wake-ups and callbacks."
+SIM_TECH = 'deterministic whole-system simulation (simulated kernel + seeded cooperative scheduler in a synctest bubble) with fault injection; invariants checked during the run and over the recorded history; seeded search with plan shrinking and exact replay'
+claimed.update({
+ "C01": dict(engine="vsim", category="exploration", design="DESIGN.md §3 C01", technique=SIM_TECH, note=SIM_NOTE,
+   text="Seeded search over peer streams, arrival segmentations, handler consumption scripts and engine configurations; byte-exact prefix, conservation and offered-before-close oracles evaluated inside every callback against what the simulated kernel actually delivered, plus no-stranded-input at quiescence. Reaches segmentations, leftovers across the ring/fresh boundary and data+FIN coincidences that loopback tests never produce, reproducibly; sampling, not proof."),
+ "C02": dict(engine="vsim", category="exploration", design="DESIGN.md §3 C02", technique=SIM_TECH, note=SIM_NOTE,
+   text="Seeded search over write-operation sequences (sync and async, from callbacks and user goroutines) under back-pressure: tiny send buffers, stalling and draining peers, buffer squeeze; the peer-side stream is compared with the accepted operations in effect order (prefix always, complete at quiescence). Found and led to the repair of a stranded-data defect (ReadFrom+Flush in LT mode)."),
+ "C03": dict(engine="vsim", category="exploration", design="DESIGN.md §3 C03", technique=SIM_TECH, note=SIM_NOTE,
+   text="Seeded search over interleavings of application goroutines issuing asynchronous requests with the loops, with every atomic of the poller and queue a scheduling point in part of the runs (the lost-wake-up window between enqueue, the wakeupCall CAS and the eventfd write); exactly-once, per-user order and one-OnTraffic-per-Wake oracles at quiescence while the engine runs."),
+ "C04": dict(engine="vsim", category="exploration", design="DESIGN.md §3 C04", technique=SIM_TECH, note=SIM_NOTE,
+   text="Seeded search over racing close causes and late requests with descriptor numbers re-opened immediately by canaries; a per-connection state machine and cause-consistency oracle for the OnClose error, CountConnections checked against the window of opened-closed."),
+ "C05": dict(engine="vsim", category="exploration", design="DESIGN.md §3 C05", technique=SIM_TECH,
+   note=SIM_NOTE + " Decides the confinement clauses only (which task runs which callback and issues which kernel call, no overlap, no panic under arbitrary concurrent API calls). Freedom from memory-level data races is NOT decided: a serialising scheduler orders all accesses through its own hand-offs, so the race detector would see happens-before everywhere.",
+   text="Confinement by simulation: every callback, runnable and kernel call is attributed to the executing task; one task per connection for life, no overlapping callbacks per loop, all I/O on a connection's descriptor from its loop's task, while user tasks call every concurrency-safe API at arbitrary moments."),
+ "C06": dict(engine="vsim", category="exploration", design="DESIGN.md §3 C06", technique=SIM_TECH, note=SIM_NOTE,
+   text="Seeded search over shutdown source and moment (any scheduler step) with open, idle, active and half-accepted connections and concurrent second stops; Run must return nil before the system goes quiet for good, after every OnClose and exactly one OnShutdown, and nothing of the engine may run in a post-mortem phase in which timers keep firing."),
+ "C07": dict(engine="vsim", category="exploration", design="DESIGN.md §3 C07", technique=SIM_TECH, note=SIM_NOTE,
+   text="The simulated kernel keeps an exact ledger of descriptor ownership: any framework call on a closed or foreign number is caught at that step (canaries re-open freed numbers immediately, so use-after-close always lands on a foreign descriptor), and at Run's return every framework-created descriptor must be closed and unix-socket files removed. Found three use-after-close defects (repaired) and one descriptor leak at shutdown (known finding)."),
+})
+
 not_applicable = {
  "C16": "pure function of a string / a few integers (parseProtoAddr, capacity normalisation, loop-count clamp): no schedule, clock, I/O or fault for a simulator to control; generating strings would be input fuzzing in simulator vocabulary (DESIGN.md §4)",
  "C20": "pure integer arithmetic (power-of-two helpers, size-class index, GFD pack/unpack): exhaustive enumeration or proof is the right tool, not simulation (DESIGN.md §4)",
